@@ -153,6 +153,11 @@ func c15Run(t *testing.T, root string, N int, wl *iprange.IPRange, hist []c15Ev,
 			}
 		}
 		s.Shutdown()
+		select {
+		case <-s.done:
+		default:
+			fail("accept-loop-stuck", "after the listener was closed the accept loop did not end (a slot or goroutine is lost)")
+		}
 	})
 	return
 }
@@ -187,6 +192,7 @@ func TestC15(t *testing.T) {
 			maxClients = 7
 		}
 		seen := map[string]bool{}
+		caseNo := ci * 10000000
 		frontier := [][]c15Ev{{}}
 		for d := 0; d <= depth && len(frontier) > 0; d++ {
 			var next [][]c15Ev
@@ -194,6 +200,8 @@ func TestC15(t *testing.T) {
 				if r.TimeUp() {
 					return
 				}
+				caseNo++
+				r.Begin(caseNo, "C15:history", sprintf("N=%d whitelist=%v history=%v", cfg.N, cfg.wl != nil, hist))
 				key, ncl, sig, why := c15Run(t, w.Root, cfg.N, cfg.wl, hist, true)
 				r.Transition(int64(len(hist)) + 2)
 				r.Eval(1)
